@@ -32,20 +32,22 @@ func init() {
 			Label:  fmt.Sprintf("[n=%d kind=%d w=%d]", n, kind, w),
 			Params: map[string]int{"N": n, "KIND": kind, "W": w}, Reach: []string{reach}})
 	}
-	gen := func(tier string, blocks, tokens, dyn, w, self int) {
+	gen := func(tier string, blocks, tokens, dyn, w, self int, tail ...int) {
 		p.Harnesses = append(p.Harnesses, HSpec{Prop: "C16", Pkg: L, Dir: "c16", Func: "VH_C16_CutGen", Tier: tier, Cfg: cfg,
-			Label:  fmt.Sprintf("[blocks=%d tokens=%d dyn=%d w=%d]", blocks, tokens, dyn, w),
-			Params: map[string]int{"BLOCKS": blocks, "TOKENS": tokens, "DYN": dyn, "W": w, "SELFCHECK": self, "LENSYMS": 1}, Reach: []string{"cutgen/done"}})
+			Label:  fmt.Sprintf("[blocks=%d tokens=%d dyn=%d w=%d tail=%d fill9=%d]", blocks, tokens, dyn, w, append(tail, 0)[0], append(tail, 0, 0)[1]),
+			Params: map[string]int{"BLOCKS": blocks, "TOKENS": tokens, "DYN": dyn, "W": w, "SELFCHECK": self, "LENSYMS": 1, "TAIL": append(tail, 0)[0], "FILL9": append(tail, 0, 0)[1]}, Reach: []string{"cutgen/done"}})
 	}
 	gen("quick", 2, 1, 0, 0, 1)
 	gen("quick", 1, 2, 1, 1, 0)
+	gen("quick", 2, 1, 0, 0, 0, 6, 7)
+	gen("thorough", 2, 2, 0, 0, 0, 6)
 	gen("thorough", 2, 2, 1, 0, 1)
 	gen("thorough", 3, 1, 1, 1, 0)
 	gen("thorough", 1, 3, 1, 1, 0)
 	zl := func(tier string, blocks, tokens, dyn, w int) {
 		p.Harnesses = append(p.Harnesses, HSpec{Prop: "C16", Pkg: "lib/zlibcut", Dir: "c16z", Func: "VH_C16_ZlibCut", Tier: tier, Cfg: cfg,
 			Label:  fmt.Sprintf("[blocks=%d tokens=%d dyn=%d w=%d]", blocks, tokens, dyn, w),
-			Params: map[string]int{"BLOCKS": blocks, "TOKENS": tokens, "DYN": dyn, "W": w, "LENSYMS": 1}, Reach: []string{"zlib/done", "zlib/error"}})
+			Params: map[string]int{"BLOCKS": blocks, "TOKENS": tokens, "DYN": dyn, "W": w, "LENSYMS": 1, "TAIL": 0}, Reach: []string{"zlib/done", "zlib/error"}})
 	}
 	zl("quick", 1, 2, 0, 1)
 	zl("thorough", 2, 2, 1, 0)
